@@ -179,6 +179,76 @@ func (b *watchClient) Do(req *http.Request) (*http.Response, error) {
 // context), and whatever error the body read then returns, Receive reports the context's code.
 //
 //	cwatch proto=P point=prefix:N|payload:N err=E ctx=canceled|deadline -> first=C second=C | norelease
+//
+// cwriteOp (K11): the response side of a bidi call has already ended (with the server's error,
+// stored=<code>, or cleanly, stored=eof) while the request side is still open; the caller's
+// context ends; the next Send reports the context's code, not whatever ended the response side
+// earlier - and a Receive after that still reports the earlier outcome.
+//
+//	cwrite proto=P stored=C|eof ctx=cancel|deadline -> send=C [stored=C]
+func cwriteOp(c *Ctx, op string) {
+	c.Begin(op)
+	a := kvArgs(strings.Fields(op))
+	proto, how, ending := a["proto"], a["stored"], a["ctx"]
+	arranged, sendEOF := true, false
+	ans := safely(func() string {
+		var cl *connect.Client[[]byte, []byte]
+		if a["via"] == "transport" {
+			// the call never reaches a handler: the transport fails (stored=14, unavailable)
+			cl = connect.NewClient[[]byte, []byte](noReadFailingDo{errors.New("dial tcp: connection refused")}, "http://127.0.0.1:9/s/m", append(protoOpts(proto), connect.WithCodec(rawCodec{"raw"}))...)
+		} else {
+			srv := startServer(connect.NewBidiStreamHandler("/s/m", func(ctx context.Context, s *connect.BidiStream[[]byte, []byte]) error {
+				if how != "eof" {
+					return connect.NewError(connect.Code(atoi(how)), errors.New("quota"))
+				}
+				return nil
+			}, connect.WithCodec(rawCodec{"raw"})), true)
+			defer srv.Close()
+			cl = connect.NewClient[[]byte, []byte](srv.Client(), srv.URL+"/s/m", append(protoOpts(proto), connect.WithCodec(rawCodec{"raw"}))...)
+		}
+		var ctx context.Context
+		var cancel context.CancelFunc
+		if ending == "cancel" {
+			ctx, cancel = context.WithCancel(context.Background())
+		} else {
+			ctx, cancel = context.WithTimeout(context.Background(), 300*time.Millisecond)
+		}
+		defer cancel()
+		s := cl.CallBidiStream(ctx)
+		_ = s.Send(&[]byte{1})
+		_, rerr := s.Receive()
+		if (how == "eof") != errors.Is(rerr, io.EOF) || (how != "eof" && int(connect.CodeOf(rerr)) != atoi(how)) {
+			arranged = false // the response side did not end as arranged (timing): nothing to judge
+		}
+		if ending == "cancel" {
+			cancel()
+		} else {
+			<-ctx.Done()
+		}
+		serr := s.Send(&[]byte{2})
+		sendEOF = errors.Is(serr, io.EOF)
+		_, again := s.Receive()
+		_ = s.CloseRequest()
+		_ = s.CloseResponse()
+		if how == "eof" {
+			return fmt.Sprintf("send=%d", connect.CodeOf(serr))
+		}
+		return fmt.Sprintf("send=%d stored=%d", connect.CodeOf(serr), connect.CodeOf(again))
+	})
+	c.Count("cwrite:" + proto)
+	if !arranged {
+		return
+	}
+	want := map[string]string{"cancel": "send=1", "deadline": "send=4"}[ending]
+	// where a handler has finished the call before the context ended, the documented stream-closed
+	// error (wrapping io.EOF) is as good an answer as the context's code; where no handler ever
+	// finished it (the transport failed), the context's code is the only one
+	if !strings.HasPrefix(ans+" ", want+" ") && !(sendEOF && a["via"] != "transport") {
+		c.Fail("cancel-send-after-response-ended", op, ans, "a Send issued after the context ended must report the context's code (or, once a handler has finished the call, the stream-closed error wrapping io.EOF), not the code of whatever ended the response side earlier")
+	}
+	c.Emit(op, ans, true)
+}
+
 func cwatchOp(c *Ctx, op string) {
 	c.Begin(op)
 	a := kvArgs(strings.Fields(op))
@@ -347,6 +417,10 @@ func runScenarios(c *Ctx, scs []scenario) {
 // --- C15 scenarios --------------------------------------------------------------------------
 
 func streamCancel(c *Ctx) {
+	if replayOp != "" && strings.HasPrefix(replayOp, "cwrite") {
+		cwriteOp(c, replayOp)
+		return
+	}
 	if replayOp != "" && strings.HasPrefix(replayOp, "cflow") {
 		cflowOp(c, replayOp)
 		return
@@ -806,50 +880,14 @@ func streamCancel(c *Ctx) {
 				return got, (rel == "context deadline exceeded" || rel == "handler not run") && code == 4
 			}})
 		}
-		// K11: the response side of a bidi call has already ended (with the server's error, or
-		// cleanly), the request side is still open; the caller's context ends; the next Send
-		// reports the context's code, not whatever ended the response side earlier
-		for _, how := range []string{"error", "clean"} {
+		// K11: see cwriteOp
+		for _, stored := range []string{"8", "eof"} {
 			for _, ending := range []string{"cancel", "deadline"} {
-				how, ending := how, ending
-				scs = append(scs, scenario{"cancel-send-after-response-ended", fmt.Sprintf("bidi call: response side ended (%s), then %s, then Send, %s", how, ending, proto), func() (string, bool) {
-					srv := startServer(connect.NewBidiStreamHandler("/s/m", func(ctx context.Context, s *connect.BidiStream[[]byte, []byte]) error {
-						if how == "error" {
-							return connect.NewError(connect.CodeResourceExhausted, errors.New("quota"))
-						}
-						return nil
-					}, connect.WithCodec(rawCodec{"raw"})), true)
-					defer srv.Close()
-					cl := connect.NewClient[[]byte, []byte](srv.Client(), srv.URL+"/s/m", append(protoOpts(proto), connect.WithCodec(rawCodec{"raw"}))...)
-					var ctx context.Context
-					var cancel context.CancelFunc
-					if ending == "cancel" {
-						ctx, cancel = context.WithCancel(context.Background())
-					} else {
-						ctx, cancel = context.WithTimeout(context.Background(), 400*time.Millisecond)
-					}
-					defer cancel()
-					s := cl.CallBidiStream(ctx)
-					_ = s.Send(&[]byte{1})
-					_, rerr := s.Receive()
-					first := codeName(rerr)
-					if ending == "cancel" {
-						cancel()
-					} else {
-						<-ctx.Done()
-					}
-					serr := s.Send(&[]byte{2})
-					_ = s.CloseRequest()
-					_ = s.CloseResponse()
-					want := map[string]string{"cancel": "canceled", "deadline": "deadline_exceeded"}[ending]
-					got := fmt.Sprintf("Receive: %s, Send after the context ended: %s", first, codeName(serr))
-					okFirst := (how == "error" && first == "resource_exhausted") || (how == "clean" && strings.HasSuffix(first, "+eof"))
-					if !okFirst {
-						return got, true // the response side did not end as arranged (timing): nothing to judge
-					}
-					return got, codeName(serr) == want
-				}})
+				cwriteOp(c, fmt.Sprintf("cwrite proto=%s stored=%s ctx=%s", proto, stored, ending))
 			}
+		}
+		for _, ending := range []string{"cancel", "deadline"} {
+			cwriteOp(c, fmt.Sprintf("cwrite proto=%s stored=14 via=transport ctx=%s", proto, ending))
 		}
 		// K6: the context ends between the prefix write and the payload write of one Send
 		scs = append(scs, scenario{"cancel-mid-send", "context cancelled between the two writes of one Send, " + proto, func() (string, bool) {
